@@ -138,7 +138,7 @@ func cpSet(p [][]byte) [][]byte {
 
 func main() {
 	r := vlib.Start("C16", "model_checking")
-	r.Rule("all (n,i) with i<n<=N on the real accumulator and Vortex tree vs recursive tree-hash model; every single-component tampering of (root, proof elements, index) must be rejected; construction histories explored as a state graph over leaf prefixes (every Push/PushSubTree/ReadAll transition must reach the canonical state); non-trivial = distinct (tree,n,i,tamper class) combinations")
+	r.Rule("all (n,i) with i<n<=N on the real accumulator and Vortex tree vs recursive tree-hash model; every single-component tampering of (root, every limb of the leaf and of every proof element, index) must be rejected; the Vortex model composes its own width-16 Poseidon2 object instead of calling the package node function; MiMC leaves shorter than a block and of decreasing lengths; construction histories explored as a state graph over leaf prefixes (every Push/PushSubTree/ReadAll transition must reach the canonical state); non-trivial = distinct (tree,n,i,tamper class) combinations")
 	r.Assume("the 2-to-1 / leaf hash functions are trusted (SHA-256, MiMC, Poseidon2: see C14); collision resistance is assumed for 'tampered => rejected'")
 	r.Assume("Vortex padding leaves (indices n..2^depth-1, zero hashes) are part of the tree as documented; out-of-range means <0 or >= 2^depth")
 	N := 130
@@ -400,6 +400,43 @@ func histories(r *vlib.Run, g string, hs hspec, nmax int) {
 				}
 			}
 		}
+		// observers are part of the alphabet: Root() / Prove() between two construction steps must not change what the
+		// next steps build (a memoised root has to be dropped by EVERY mutating operation)
+		observedThen := func(p, q int, id string, apply func(t *merkletree.Tree) error) {
+			if p == 0 {
+				return
+			}
+			t := build(p)
+			t.Root()
+			if i < p {
+				t.Prove()
+			}
+			if err := apply(t); err != nil {
+				return // refusals are judged by the unobserved transition
+			}
+			trans++
+			want := m.root(leaves[:q])
+			if got := t.Root(); !bytes.Equal(got, want) {
+				r.FailIn(g, "hist/"+hs.name+"/root-after-observed-prefix", id, fmt.Sprintf("Root()%s on the %d-leaf prefix, then %s: Root() is not the tree hash of the %d leaves", map[bool]string{true: " and Prove()", false: ""}[i < p], p, id, q), nil)
+				return
+			}
+			if i < q && i < nmax {
+				root, proof, _, num := t.Prove()
+				wantProof := append([][]byte{leaves[i]}, m.path(i, leaves[:q])...)
+				ok := bytes.Equal(root, want) && len(proof) == len(wantProof) && num == uint64(q)
+				if ok {
+					for k := range proof {
+						ok = ok && bytes.Equal(proof[k], wantProof[k])
+					}
+				}
+				if !ok {
+					r.FailIn(g, "hist/"+hs.name+"/proof-after-observed-prefix", id, "Prove() after an observed prefix differs from the model", nil)
+				}
+			}
+		}
+		for p := 1; p < nmax; p++ {
+			observedThen(p, p+1, fmt.Sprintf("i=%d,p=%d,Push", i, p), func(t *merkletree.Tree) error { t.Push(cp(leaves[p])); return nil })
+		}
 		for p := 0; p < nmax; p++ {
 			// transition: PushSubTree(h) for every aligned admissible subtree
 			for h := 0; p%(1<<h) == 0 && p+(1<<h) <= nmax; h++ {
@@ -424,6 +461,7 @@ func histories(r *vlib.Run, g string, hs hspec, nmax int) {
 				if d := dumpTree(t); d != canon[q] {
 					r.FailIn(g, "hist/"+hs.name+"/subtree-state", id, "state after PushSubTree differs from state after pushing the same leaves", map[string]any{"got": d, "want": canon[q]})
 				}
+				observedThen(p, q, id, func(t *merkletree.Tree) error { return t.PushSubTree(h, m.root(leaves[p:q])) })
 				r.Tag(fmt.Sprintf("hist/%s/subtree/h%d/p%d", hs.name, h, p))
 			}
 			// inadmissible: subtree larger than the smallest subtree (misaligned)
@@ -457,6 +495,11 @@ func histories(r *vlib.Run, g string, hs hspec, nmax int) {
 						r.FailIn(g, "hist/"+hs.name+"/readall-error", id, err.Error(), nil)
 					} else if d := dumpTree(t); d != canon[p+mm] {
 						r.FailIn(g, "hist/"+hs.name+"/readall-state", id, "state after ReadAll differs from state after pushing the same leaves", nil)
+					}
+					if chunk == 0 {
+						observedThen(p, p+mm, id, func(t *merkletree.Tree) error {
+							return t.ReadAll(&vlib.ChunkReader{B: cp(buf), N: 0}, hs.leafSize)
+						})
 					}
 				}
 				r.Tag(fmt.Sprintf("hist/%s/readall/m%d/p%d", hs.name, mm, p))
